@@ -90,6 +90,7 @@ fn act_name_r(a: &RAct) -> &'static str {
         RAct::Resize(..) => "resize",
         RAct::Clear => "clear",
         RAct::Reserve(_) => "reserve",
+        RAct::Complement => "complement",
     }
 }
 
